@@ -248,11 +248,16 @@ CLAIMED['C17'] = dict(
          'theories/Copy.v, the model of copy_from_statechart checked against the implementation on every plug attempt, accepted or '
          'refused) the host gains exactly the image of the source sub-statechart under the renaming, each transition touching it once, '
          'nothing else changes (C17_copy_structure), the host stays sound under two side conditions proved necessary (C17_copy_sound, '
-         'two refutations), a refused copy changes nothing when refused at the outset (copy_refused_unchanged).',
+         'two refutations), a refused copy changes nothing when refused at the outset (copy_refused_unchanged). (embedding, WrapProofs) a '
+         'statechart placed under a new compound root - the host shape the check uses - produces exactly the runs of the statechart '
+         'alone: every function of the interpreter model commutes with the embedding (C17_wrap_step, C17_wrap_queue, C17_wrap_run, '
+         'C17_wrap_init), under a decidable hypothesis evaluated on every plugged guest (wrap_okb) whose two essential clauses are '
+         'proved necessary (the root has no final child; the root is active when a step starts).',
     design_ref='DESIGN.md section 6 (C17)',
     note='Trusted: Coq kernel+VM; hand-written model validated differentially; the evaluator must not depend on state names (code is not '
-         'rewritten by rename_state); the copied sub-chart is proved to be the renamed image of the source (structure); that an embedded '
-         'sub-chart BEHAVES inside its host as on its own is checked by lock-step runs only (no simulation theorem).',
+         'rewritten by rename_state); the copied sub-chart is proved to be the renamed image of the source (structure) and a chart under a '
+         'new root to behave as on its own (embedding); the three theorems (copy structure, renaming equivariance, embedding) are not '
+         'composed into one statement, and hosts with other active regions beside the plug are covered by lock-step runs only.',
     technique='Coq proof (equivariance of every model function) + metamorphic differential runs (rename_state, copy_from_statechart)')
 
 CLAIMED['C18'] = dict(
